@@ -19,6 +19,9 @@
 (*                  base64/sha256/format encoders and decoders supplied by *)
 (*                  independent implementations]                           *)
 (* Err("undef") means "outside the modelled domain" (never a verdict).     *)
+(* A codec value missing from ctx.codec is reported as err = "need" with    *)
+(* the (name, argument) the environment has to supply: the harness answers  *)
+(* with an independent implementation and validation is repeated.           *)
 (***************************************************************************)
 EXTENDS BklParser
 
@@ -243,7 +246,7 @@ Fmt(t) ==
 
 CodecLookup(ctx, name, in) ==
   LET hits == {i \in DOMAIN ctx.codec : ctx.codec[i].name = name /\ ctx.codec[i]["in"] = in} IN
-  IF hits = {} THEN Err("undef")
+  IF hits = {} THEN [ok |-> FALSE, err |-> "need", need |-> [name |-> name, arg |-> in]]
   ELSE LET o == ctx.codec[CHOOSE i \in hits : TRUE].out IN
        IF o = <<"x", "error">> THEN Err("codec") ELSE Ok(o)
 
